@@ -1,7 +1,9 @@
 (* Extraction of the protocol model M-Sys (sys/Proto.v) for the C03/C04/C15 trace-replay driver
-   (ExtrOcamlBasic only). *)
+   (ExtrOcamlBasic only), together with the boolean forms of the oracle premises of the global
+   theorems (sys/ProtoPremises.v: premises_step), which the driver evaluates on every replayed
+   action of a real trace. *)
 Require Extraction.
 Require Import ExtrOcamlBasic.
-From Quiver Require Import sys.Proto.
+From Quiver Require Import sys.Proto sys.ProtoPremises.
 Extraction Language OCaml.
-Extraction "extracted/proto_model.ml" init sys_step run.
+Extraction "extracted/proto_model.ml" init sys_step run premises_step resume_honest_stepb.
